@@ -7,6 +7,7 @@ import (
 	"hash/fnv"
 	"os"
 	"path/filepath"
+	"runtime"
 	"strings"
 	"sync"
 	"testing"
@@ -322,6 +323,12 @@ func (s *Stats) evalFast(c Case, nontrivial bool, classes ...string) {
 
 func TestMain(m *testing.M) {
 	code := m.Run()
+	if os.Getenv("VERIF_MEMSTATS") != "" {
+		var ms runtime.MemStats
+		runtime.GC()
+		runtime.ReadMemStats(&ms)
+		fmt.Printf("MEMSTATS heap_inuse=%dMB heap_objects=%d sys=%dMB goroutines=%d\n", ms.HeapInuse>>20, ms.HeapObjects, ms.Sys>>20, runtime.NumGoroutine())
+	}
 	if fuzzStats != nil { // corpus replay of a fuzz target in a plain run
 		fuzzExecs = 499
 		fuzzFlush()
